@@ -16,8 +16,13 @@
      rationals (1 = 1.0 = 1.00), hex and base64 literals as the bytes they
      encode, set literals up to the order of their members; on the registry-key
      paths the STIX specification declares case-insensitive
-     (windows-registry-key:key, :values[..].name) a string is seen up to case
-     -- except the regular expression of MATCHES, which is seen as written.
+     (windows-registry-key:key, :values[..].name) a string is seen up to case;
+     on ipv4-addr:value a string that is an address or a CIDR block is seen as
+     the network it denotes (1.2.3.4 = 1.2.3.4/32 = 1.2.3.004, 10.9.9.9/8 =
+     10.0.0.0/8) -- except the regular expression of MATCHES, which is always
+     seen as written.  (For ipv6-addr:value the corresponding statement is a
+     hypothesis on H, respects_cidr6: the model's restatement of inet_pton /
+     inet_ntop has no independent specification here.)
 
    Comparison expressions: andb / orb over ONE object.
    Observation expressions: bindings (duplicate-free lists of observation
@@ -27,7 +32,7 @@
      OR               a binding of some operand
      FOLLOWEDBY       as AND, and every time of an earlier operand's binding <= every time of a later one's
      e REPEATS n      concatenation of n pairwise disjoint bindings of e
-     e WITHIN d       a binding of e whose times lie within d seconds of each other
+     e WITHIN d       a binding of e whose times lie within d seconds of each other (d = m * 10^-e, a decimal)
      e START s STOP t a binding of e whose times lie in [s, t)
    A pattern matches a sequence of observations iff it has a binding.        *)
 From Coq Require Import NArith ZArith QArith List Bool Permutation String.
@@ -45,7 +50,8 @@ Inductive dprim :=
 | DBool (b : bool)
 | DTime (us : Z)               (* an instant, microseconds *)
 | DHex (bytes : list N)
-| DBin (bytes : list N).
+| DBin (bytes : list N)
+| DNet4 (addr : N) (prefix : N).   (* an IPv4 network: the address with its host bits cleared, the prefix length *)
 
 Inductive dconst :=
 | DP (d : dprim)
@@ -99,11 +105,42 @@ Definition regkey_path (t : ustring) (p : list step) : bool :=
   | _ => false
   end.
 
+Definition ip4_path (t : ustring) (p : list step) : bool :=
+  ustr_eqb t (u "ipv4-addr") && match p with [k] => is_key k "value" | _ => false end.
+
+Definition addr4 (bs : list N) : N :=
+  match bs with [b0; b1; b2; b3] => (((b0 * 256 + b1) * 256 + b2) * 256 + b3)%N | _ => 0%N end.
+
+(* the network an IPv4 address / CIDR string denotes: (address with the host bits cleared, prefix
+   length).  What is an address and what is a prefix length is decided by the platform's inet_aton
+   and int() (restated in the model); the masking is arithmetic on the 32-bit number. *)
+Definition ipv4_net_of (s : ustring) : option (N * N) :=
+  let ip := match find_cp 47%N s with Some (a, _) => a | None => s end in
+  let suffix := match find_cp 47%N s with Some (_, t) => Some t | None => None end in
+  match inet_aton ip with
+  | AtonOk bs =>
+    match suffix with
+    | None => Some (addr4 bs, 32%N)
+    | Some t =>
+      match py_int t with
+      | Some n => if ((0 <=? n) && (n <=? 32))%Z
+                  then Some ((addr4 bs / 2 ^ Z.to_N (32 - n) * 2 ^ Z.to_N (32 - n))%N, Z.to_N n)
+                  else None
+      | None => None
+      end
+    end
+  | _ => None
+  end.
+
 (* the denotation of an atom's constant in the context of its path and operator *)
 Definition den_atom (a : atom) : dconst :=
   match a_rhs a with
   | KP (PStr s) =>
-    if regkey_path (a_type a) (a_path a) && negb (is_matches (a_op a)) then DP (DStr (casefold s)) else DP (DStr s)
+    if is_matches (a_op a) then DP (DStr s)
+    else if regkey_path (a_type a) (a_path a) then DP (DStr (casefold s))
+    else if ip4_path (a_type a) (a_path a)
+         then match ipv4_net_of s with Some (ad, n) => DP (DNet4 ad n) | None => DP (DStr s) end
+    else DP (DStr s)
   | k => den k
   end.
 
@@ -135,13 +172,13 @@ Section Semantics.
   Definition respects_denotation : Prop :=
     forall t p o n d d' x, dconst_eq d d' -> H t p o n d x = H t p o n d' x.
 
-  (* and, where the address canonicalisation is concerned (the model's
-     restatement of the platform's inet_aton/inet_pton/inet_ntoa/inet_ntop is
-     not given an independent specification): an address string and its
-     canonical CIDR form are the same value on ipvN-addr:value *)
-  Definition respects_cidr : Prop :=
-    forall v6 t p o n s s' x,
-      special_kind t p = SpIp v6 -> ip_canon v6 s = CanonTo s' ->
+  (* and, for IPv6 only (the model's restatement of inet_pton / inet_ntop is not
+     given an independent specification): an IPv6 address string and its
+     canonical CIDR form are the same value on ipv6-addr:value, except as a
+     regular expression *)
+  Definition respects_cidr6 : Prop :=
+    forall t p o n s s' x,
+      special_kind t p = SpIp true -> is_matches o = false -> ip_canon true s = CanonTo s' ->
       H t p o n (DP (DStr s')) x = H t p o n (DP (DStr s)) x.
 
   Definition asem (a : atom) (x : obj) : bool :=
@@ -169,7 +206,7 @@ Section Semantics.
   Definition qual_ok (q : qual) (b : list nat) : Prop :=
     match q with
     | QRepeat _ => True
-    | QWithin d => forall i j, In i b -> In j b -> (time_of i - time_of j <= d * 1000000)%Z
+    | QWithin m e => forall i j, In i b -> In j b -> ((time_of i - time_of j) * 10 ^ Z.of_N e <= m * 1000000)%Z
     | QStartStop s t => forall i, In i b -> (s <= time_of i < t)%Z
     end.
 
